@@ -617,6 +617,21 @@ fn snapshot(value: &Value) -> BTreeMap<String, Item> {
     }
     m
 }
+/// the children of the "Sorted by name" group: (key as in `snapshot`, file name, complete, cmdCtx) in listed order
+fn snapshot_by_name(value: &Value) -> Vec<(String, String, bool, Value)> {
+    let mut v = vec![];
+    if let Some(ch) = value["treeItems"][0]["children"].as_array() {
+        for it in ch {
+            let tip = it["tooltip"].as_str().unwrap_or("");
+            let (key, name) = match tip.find(", '") {
+                Some(p) => (tip[..p + 1].to_string(), tip[p + 3..].split('\'').next().unwrap_or("").to_string()),
+                None => (tip.to_string(), String::new()),
+            };
+            v.push((key, name, it["iconPath"].as_str() == Some("file"), it["cmdCtx"].clone()));
+        }
+    }
+    v
+}
 fn tr_key(t: &Tr) -> String {
     format!("{}, LC id={}, serial #{},", t.ecu, t.lc, t.serial)
 }
@@ -782,6 +797,19 @@ pub fn run_case(ctx: &mut Ctx, c: &Case, sb: &Sandbox) {
         ctx.landmark("flda_removed_from_stream");
     }
 
+    // ---- the "Sorted by name" view lists the same transfers, ordered by file name
+    let by_name = snapshot_by_name(&state.read().unwrap().value);
+    {
+        let n_occ = state.read().unwrap().value["treeItems"].as_array().map(|a| a.len().saturating_sub(1)).unwrap_or(0);
+        if by_name.len() != n_occ {
+            ctx.violation("by_name_view", "count", cj, format!("{} items sorted by name, {} by occurrence", by_name.len(), n_occ));
+        } else if by_name.windows(2).any(|w| w[0].1 > w[1].1) {
+            ctx.violation("by_name_view", "order", cj, format!("not sorted by name: {:?}", by_name.iter().map(|x| x.1.clone()).collect::<Vec<_>>()));
+        }
+        if by_name.len() >= 2 && by_name.iter().zip(snap.values()).count() > 0 {
+            ctx.landmark("by_name_view_multi");
+        }
+    }
     // ---- per transfer: completion and the save command
     let mut nontrivial = false;
     let mut outcome = String::new();
@@ -866,6 +894,23 @@ pub fn run_case(ctx: &mut Ctx, c: &Case, sb: &Sandbox) {
                                     ctx.landmark("saved_by_command_equal");
                                     nontrivial = true;
                                     outcome.push_str(":saved");
+                                }
+                                // the same transfer through its item in the "Sorted by name" view
+                                for (_, _, _, ctx_by_name) in by_name.iter().filter(|(k, _, comp2, _)| *k == keys[ti] && *comp2) {
+                                    if let Some(cc) = ctx_by_name.as_object() {
+                                        match catch(|| f(&st.internal_data, "save", params.as_object(), Some(cc))) {
+                                            Err(p) => ctx.violation("panic", &panic_disc(&p), cj, format!("save command (by-name item) at {}: {}", p.loc, p.msg)),
+                                            Ok(ok2) => {
+                                                let got2 = std::fs::read(&save_path).ok();
+                                                let _ = std::fs::remove_file(&save_path);
+                                                if ok && got.is_some() && (!ok2 || got2.as_deref() != Some(&t.content[..])) {
+                                                    ctx.violation("save_by_name_differs", t.fault.kind(), cj, format!("transfer {ti} ('{}'): the item of the view sorted by name saves {:?} (returned {ok2}), original {}", t.name, got2.as_deref().map(hex), hex(&t.content)));
+                                                } else if ok2 {
+                                                    ctx.landmark("saved_by_name_item_equal");
+                                                }
+                                            }
+                                        }
+                                    }
                                 }
                             }
                         }
@@ -1551,7 +1596,7 @@ impl Prop for C17Prop {
         Meta {
             id: "C17",
             level: "model_checking",
-            rule: "bounded exhaustive exploration of FLST/FLDA/FLFI message streams executed on the real FileTransferPlugin (from_json, process_msg, published state, save command, auto-save into a sandbox directory): (1) one transfer, every content length S in 1..9 x package size B in {1,2,3,4,S} x every single fault {none, drop package i, identical duplicate of package i at every later position, swap i/i+1, grow/shrink package i by one byte, drop FLST, drop FLFI} x 10 configurations x byte order, and x every position of 1..2 unrelated/stray messages; (2) two (and three) concurrent transfers whose keys differ in exactly one of serial / ECU / lifecycle, every interleaving of the message lists; (3) announced file names x auto-save glob x state of the configured directory (missing, pre-existing file / directory / symlink at the target name); two transfers with one target name; (4) a good transfer next to an announcement with boundary values for nr_packages / buffer_size. Oracle (reference = original bytes + injected fault): no fault or only duplicates => reported complete at the end, the save command (allowSave) and auto-save (glob matches, name free) yield exactly the original bytes; missing / swapped / resized package => never reported complete after any message, the save command refuses it, nothing with its bytes in the directory; every file that appears lies inside the configured directory and holds the original of a transfer that is complete; pre-existing entries are unchanged; no panic / abort. A case is non-trivial when a file was saved and compared, an incomplete transfer was reported, or auto-save was skipped because the name was taken.".into(),
+            rule: "bounded exhaustive exploration of FLST/FLDA/FLFI message streams executed on the real FileTransferPlugin (from_json, process_msg, published state, save command, auto-save into a sandbox directory): (1) one transfer, every content length S in 1..9 x package size B in {1,2,3,4,S} x every single fault {none, drop package i, identical duplicate of package i at every later position, swap i/i+1, grow/shrink package i by one byte, drop FLST, drop FLFI} x 10 configurations x byte order, and x every position of 1..2 unrelated/stray messages; (2) two (and three) concurrent transfers whose keys differ in exactly one of serial / ECU / lifecycle, every interleaving of the message lists; (3) announced file names x auto-save glob x state of the configured directory (missing, pre-existing file / directory / symlink at the target name); two transfers with one target name; (4) a good transfer next to an announcement with boundary values for nr_packages / buffer_size. Oracle (reference = original bytes + injected fault): no fault or only duplicates => reported complete at the end, the save command (allowSave) and auto-save (glob matches, name free) yield exactly the original bytes - the save command is issued through the transfer's tree item by occurrence and through its item in the 'Sorted by name' view (same transfers, ordered by file name); missing / swapped / resized package => never reported complete after any message, the save command refuses it, nothing with its bytes in the directory; every file that appears lies inside the configured directory and holds the original of a transfer that is complete; pre-existing entries are unchanged; no panic / abort. A case is non-trivial when a file was saved and compared, an incomplete transfer was reported, or auto-save was skipped because the name was taken.".into(),
             assumptions: vec![
                 "file contents are position- and transfer-coded bytes (the plugin never branches on data bytes); sizes and package sizes as listed under coverage.families".into(),
                 "a duplicate is an identical copy of a package (same number, same bytes); a repeated number with different bytes is not explored".into(),
@@ -1563,6 +1608,8 @@ impl Prop for C17Prop {
             required_landmarks: vec![
                 // properties of the enumerated cases
                 "case:fault_that_forbids_completion",
+                "by_name_view_multi",
+                "saved_by_name_item_equal",
                 "case:last_package_shorter",
                 "case:two_transfers_interleaved",
                 "case:preexisting_entry",
